@@ -154,9 +154,12 @@ def _field_of(diff):
     return m.group(1) if m else "top"
 
 
+PAIR_KINDS = ["http-resp", "ws", "tcp-err", "dns-resp"]  # shapes that get every PAIR of field mutations in the thorough tier
+
+
 def h_flow_fields(X, nmut):
     kind = X.choose("kind", F.FLOW_KINDS)
-    f, done = F.mutated_flow(X, "", kind, nmut)
+    f, done = F.mutated_flow(X, "", kind, nmut if kind in PAIR_KINDS else 1)
     if any(n == "backup" for n, _ in done):
         X.assume(False)  # decided by flow-backup
     X.note("mutations", done)
@@ -353,27 +356,27 @@ def obligations(tier):
              bounds="values: None/True/False, ints +-(lead*10^(k-1)+tail | 10^(k-1) | 10^k-1) for k=1..20 digits, 9 floats incl. -0.0/inf/denormal, "
                     "bytes <= 2 over 8 adversarial bytes, str <= 2 over 7 code points (1-4 byte UTF-8, delimiters), list/tuple/dict of <= 2 "
                     "of 15 leaves with 8 key shapes (str/bytes/int/None/bool keys), one more nesting level; 4 trailers after the record",
-             encoded=ENCODED[:7], must_reach=["leaf", "int", "list", "dict", "nested"], parallel_depth=3, budget_s=600),
+             encoded=ENCODED[:7], must_reach=["leaf", "int", "list", "dict", "nested"], parallel_depth=3, budget_s=1800 if q else 7200),
         Symx("tnet-lengths", lambda X: h_lengths(X, maxlen),
              bounds=f"every payload length 0..{maxlen} (solver-chosen) x 6 payload kinds (bytes, ascii str, 2-byte-char str, list, dict, int digits<=120) "
                     "x 4 nesting contexts",
              encoded=ENCODED[:7], must_reach=["checked", "len-9", "len-10", "len-99", "len-100"] + ([] if q else ["len-999", "len-1000"]),
-             parallel_depth=2, budget_s=600),
+             parallel_depth=2, budget_s=1800 if q else 7200),
         Symx("flow-fields", lambda X: h_flow_fields(X, 1 if q else 2),
              bounds=f"10 flow shapes (HTTP request-only/with response/with error, HTTP+WebSocket, TCP, TCP+error, UDP, DNS query/with response/with "
-                    f"error) x {'one' if q else 'every pair of'} field mutation(s) out of ~95 fields x 2-8 boundary values each (ports, timestamps, "
+                    f"error) x {'one field mutation' if q else 'one field mutation (every pair of mutations for 4 shapes)'} out of ~95 fields x 2-8 boundary values each (ports, timestamps, "
                     "None, empty, non-ASCII, delimiters, certificates, proxy modes, connection states, headers/trailers, messages, DNS records)",
              encoded=ENCODED[7:], must_reach=["roundtrip", "mutated", "kind-http", "kind-ws", "kind-tcp", "kind-udp", "kind-dns"],
-             parallel_depth=2 if q else 3, budget_s=900),
+             parallel_depth=2 if q else 3, budget_s=1800 if q else 7200),
         Symx("flow-sequences", lambda X: h_flow_sequences(X, 3),
              bounds="files of 1-3 flows, every sequence of the 10 flow shapes; one flow carries a solver-chosen mutation of a flow-level field "
                     "(comment/marked/metadata/error at any position for <= 2 flows; comment/metadata on the middle flow for 3); order, ids, "
                     "types and full states compared",
-             encoded=ENCODED[7:], must_reach=["roundtrip", "full-length"], parallel_depth=3, budget_s=900),
+             encoded=ENCODED[7:], must_reach=["roundtrip", "full-length"], parallel_depth=3, budget_s=1800 if q else 7200),
         Symx("flow-backup", h_flow_backup,
              bounds="10 flow shapes x backup() followed by one field mutation (every field x every menu value)",
              encoded=ENCODED[7:] + ["mitmproxy.flow:Flow.backup", "mitmproxy.flow:Flow.revert", "mitmproxy.flow:Flow.modified"],
-             must_reach=["has-backup", "reverted"], parallel_depth=2, budget_s=600),
+             must_reach=["has-backup", "reverted"], parallel_depth=2, budget_s=1800 if q else 7200),
     ]
     nt, nl, nv = (6, 6, 5) if q else (8, 7, 6)
     obs += [
@@ -381,15 +384,15 @@ def obligations(tier):
              bounds=f"ALL file contents: k <= {nt} fully symbolic bytes as the whole file (every one of the 256^k buffers); 12 digits + k <= 3 symbolic "
                     f"bytes; a list record holding k <= {nl} symbolic bytes (pop/split path) — tnetstring layer and FlowReader error mapping",
              encoded=ENCODED[2:10], must_reach=["flowread", "clean-end", "ctx-top", "ctx-in-list", "ctx-top-after-12-digits"], stubs=F.sym_reader_env.STUBS,
-             parallel_depth=4, budget_s=900),
+             parallel_depth=4, budget_s=1800 if q else 7200),
         Symx("reader-total-version", lambda X: h_total_bytes(X, nv, ["version-value"], {}),
              bounds=f"ALL files `N:7:version;` + k <= {nv} symbolic bytes + `}}`: a flow dict whose 'version' value is arbitrary (every int, bytes pair, "
                     "list, text ...) read through compat.migrate_flow and Flow.from_state",
-             encoded=ENCODED[2:13], must_reach=["flowread", "ctx-version-value"], stubs=F.sym_reader_env.STUBS, parallel_depth=4, budget_s=900),
+             encoded=ENCODED[2:13], must_reach=["flowread", "ctx-version-value"], stubs=F.sym_reader_env.STUBS, parallel_depth=4, budget_s=1800 if q else 7200),
         Symx("reader-total-states", lambda X: h_total_states(X, ["http-resp", "http-err", "ws", "tcp", "udp", "dns-resp"] if q else F.FLOW_KINDS),
              bounds="well-formed one-flow files (6 flow shapes quick / 10 thorough) with one mutation of the state tree: every key path (depth <= 4, first "
                     "list element) x {delete, replace by one of 13 values of other types, add an unexpected key} + 13 version values",
-             encoded=ENCODED[7:], must_reach=["judged", "flowread", "yielded-flow"], parallel_depth=3, budget_s=900),
+             encoded=ENCODED[7:], must_reach=["judged", "flowread", "yielded-flow"], parallel_depth=3, budget_s=1800 if q else 7200),
     ]
     from vf.ob import Concrete
 
